@@ -438,6 +438,8 @@ class CommandReceived(_Dispatcher):
 
 
 CONTRACTS = [SendBoxCommand, AnswerReceived, ErrorReceived, FailAllOutgoing, AmpBoxReceived, CommandReceived]
+for _k in CONTRACTS:
+    _k.replay_decides = False  # the table of outstanding requests is an SMT array that is not an input
 BOUNDED = bounded("C31")
 _SCOPE = ('two real amp.AMP peers over an in-memory byte pipe with a step scheduler: 6 scripts cut at every byte of every delivery with 6 connection-loss modes, every schedule of length <= 4 over a 13-step alphabet (calls from both sides, whole / 9-byte deliveries, firing parked responders, loss of either side), 3000 seeded random schedules of 8-60 steps; oracle: a message-level model written from the statement plus an independent box-framing reader (every callRemote Deferred fires exactly once with its own answer / error / the loss reason; calls after loss fail at once)')
 NOTES = dict(explanation="BoxDispatcher's request table proved for an arbitrary map of pending requests; whole peers bounded: " + _SCOPE,
